@@ -14,6 +14,10 @@ C  chained transformations: the new variable is transformed again (2-3 links, an
    default), then the innermost new variable is assigned; every variable of the chain and the innermost
    log-density are compared with the model's chain_up / chain_logpdf (composition of the forwards, sum of the
    log-Jacobians).  K: flags along chains (vm_compute).
+   R cases with model-dependent bijector arguments are also run in COPIES of the graph (build_model(copy=True),
+   copy_nodes_and_vars + rebuild, gs.LieselInterface.update_state) with the argument changed in the copy only.
+H  histories: refused transform calls (every refusal reason), then a correct one; flags after every call and
+   whether the new variable's log-density is Model.log_prior (vm_compute against history_s / states_s).
 S  flags / refusals of Var.transform and GraphBuilder.transform on all argument shapes (vm_compute).
 A  auto-transform in build_model on random lists of variables (vm_compute).
 
@@ -237,23 +241,34 @@ def run_r_case(case) -> dict:
                     tkw[kw] = node
         else:
             bij = None
+        mode = case.get("mode", "inplace")
+        cp = mode == "copy"
         with warnings.catch_warnings():
             warnings.simplefilter("ignore")
             if case["path"] == "var":
                 tv = x.transform(bij, *targs, **tkw)
                 obs["x_after"] = fr(x.value)
                 obs["tv_after"] = fr(tv.value)
-                model = lsl.Model(roots, to_float32=False)
+                model = (lsl.GraphBuilder(to_float32=False).add(*roots).build_model(copy=True) if cp
+                         else lsl.Model(roots, to_float32=False))
             elif case["path"] == "dep":
                 gb = lsl.GraphBuilder(to_float32=False)
                 tv = gb.transform(x, bij, *targs, **tkw)
                 obs["x_after"] = fr(x.value)
                 obs["tv_after"] = fr(tv.value)
                 gb.add(*roots)
-                model = gb.build_model()
+                model = gb.build_model(copy=cp)
             else:
                 x.auto_transform = True
-                model = lsl.GraphBuilder(to_float32=False).add(*roots).build_model()
+                model = lsl.GraphBuilder(to_float32=False).add(*roots).build_model(copy=cp)
+            model0 = None
+            if mode == "copy_nodes":
+                # a second model from deep copies of the first model's nodes; only the copy is modified below
+                model0 = model
+                _, cvars = model0.copy_nodes_and_vars()
+                model = lsl.GraphBuilder(to_float32=False).add(cvars[roots[0].name]).build_model()
+        if mode == "interface":
+            return run_r_interface(case, obs, model, f)
         mv = model.vars
         if "x_transformed" not in mv or "x" not in mv:
             obs["raised"] = f"the model has no variable x_transformed / x after the transformation (variables: {sorted(mv)})"
@@ -278,10 +293,49 @@ def run_r_case(case) -> dict:
             TV.value = f(st["t"])
             obs["steps"].append(snap())
         obs["flags_x_end"] = flags_of(X)
+        if model0 is not None:
+            # the first model must not have been touched by the assignments in the copy
+            obs["first_model"] = {"x": fr(model0.vars["x"].value), "t": fr(model0.vars["x_transformed"].value),
+                                  "lp": fr(model0.vars["x_transformed"].log_prob)}
     except NonFinite as ex:
         obs["raised"] = f"non-finite value / log_prob observed ({ex}) after {len(obs['steps'])} assignments"
     except Exception as ex:  # the model never raises on R cases: reported by the oracle
         obs["raised"] = f"{type(ex).__name__}: {str(ex)[:200]}"
+    return obs
+
+
+def run_r_interface(case, obs, model, f):
+    """the Goose interface works on its own copy of the model: update_state / extract_position / log_prob"""
+    import liesel.goose as gs
+    mv = model.vars
+    if "x_transformed" not in mv or "x" not in mv:
+        obs["raised"] = f"the model has no variable x_transformed / x after the transformation (variables: {sorted(mv)})"
+        return obs
+    X, TV = mv["x"], mv["x_transformed"]
+    obs["names"] = sorted(mv.keys())
+    obs["init"] = {"lp": fr(TV.log_prob), "x": fr(X.value), "mlp": fr(model.log_prob), "xlp": fr(X.log_prob), "t": fr(TV.value)}
+    obs["flags_x"] = flags_of(X)
+    obs["flags_tv"] = flags_of(TV)
+    obs["flags_x_end"] = flags_of(X)
+    itf = gs.LieselInterface(model)
+    state = model.state
+    b = case["bij"]
+    for st in case["steps"]:
+        pos = {}
+        for k, v in st.get("params", {}).items():
+            if k in case["param_vars"]:
+                pos[k] = f(v)
+        if b["kind"] == "cls" and b["arg_vars"]:
+            for i, v in enumerate(st.get("args", [])):
+                pos[f"ba{i}"] = f(v)
+        pos["x_transformed"] = f(st["t"])
+        state = itf.update_state(pos, state)
+        got = itf.extract_position(["x", "x_transformed", "x_transformed_log_prob"], state)
+        xlp = state["x_log_prob"].value if "x_log_prob" in state else 0.0
+        obs["steps"].append({"lp": fr(got["x_transformed_log_prob"]), "x": fr(got["x"]), "mlp": fr(itf.log_prob(state)),
+                             "xlp": fr(xlp), "t": fr(got["x_transformed"])})
+    # the model the interface was created from is not modified by update_state
+    obs["first_model"] = {"x": fr(X.value), "t": fr(TV.value), "lp": fr(TV.log_prob)}
     return obs
 
 
@@ -328,7 +382,13 @@ def oracle_r(case):
         return "auto_transform flag not cleared"
     if "x_after" in obs and not close(obs["x_after"], F(case["v0"])):
         return f"original value changed by the transformation: {float(obs['x_after'])} instead of {float(F(case['v0']))}"
+    if "first_model" in obs:
+        fm, s0 = obs["first_model"], obs["init"]
+        if not (close(fm["x"], s0["x"]) and close(fm["t"], s0["t"]) and close(fm["lp"], s0["lp"])):
+            return (f"assignments in the copy ({case.get('mode')}) changed the model it was copied from: "
+                    f"x {float(s0['x'])} -> {float(fm['x'])}, new variable {float(s0['t'])} -> {float(fm['t'])}")
     snaps = [(-1, obs["init"])] + list(enumerate(obs["steps"]))
+    mode_txt = "" if case.get("mode", "inplace") == "inplace" else f" [in the copy: {case['mode']}]"
     for k, s in snaps:
         p, a = cur_params(case, k)
         dist = getattr(tfd, case["fam"])(**{kk: f64(v) for kk, v in p.items()})
@@ -349,7 +409,8 @@ def oracle_r(case):
         jac = jnp.log(jnp.abs(jax.grad(lambda u: bij.forward(u))(t)))
         want = dist.log_prob(xx) + jac
         if not close(s["x"], xx):
-            return f"step {k}: original value {float(s['x'])} is not b(t) = {float(xx)} at t = {float(t)}"
+            return (f"step {k}: original value {float(s['x'])} is not b(t) = {float(xx)} at t = {float(t)} with the current "
+                    f"bijector arguments {[str(v) for v in a]} / parameters { {kk: str(v) for kk, v in p.items()} }" + mode_txt)
         if not close(s["lp"], want):
             return (f"step {k}: new log-density {float(s['lp'])} is not log p(b(t)) + ln|b'(t)| = {float(want)} "
                     f"at t = {float(t)}")
@@ -847,7 +908,7 @@ def k_row(c) -> str:
 
 
 def oracle(case):
-    return {"R": oracle_r, "S": oracle_s, "A": oracle_a, "C": oracle_c, "K": oracle_k}[case["type"]](case)
+    return {"R": oracle_r, "S": oracle_s, "A": oracle_a, "C": oracle_c, "K": oracle_k, "H": oracle_h}[case["type"]](case)
 
 
 # ----------------------------------------------------------------------------------------------
@@ -985,6 +1046,25 @@ def gen_r_case(rnd, fam, bname, kind, path, tier_steps, boundary=False, big=Fals
     return case
 
 
+MODES = ["copy", "copy_nodes", "interface", "inplace"]
+
+
+def set_mode(rnd, case, mode):
+    """run the assignments in a copy of the graph; make sure a model-dependent argument exists and is changed"""
+    case["mode"] = mode
+    if mode == "inplace":
+        return case
+    fam, b = case["fam"], case["bij"]
+    if b["kind"] == "default" and fam == "HalfCauchy" and "loc" not in case["param_vars"]:
+        case["param_vars"].append("loc")
+    for j, st in enumerate(case["steps"]):
+        if j >= 1:
+            st.setdefault("params", {})
+            if b["kind"] == "default" and fam == "HalfCauchy":
+                st["params"]["loc"] = dy(rnd, -2, 2, 4)
+    return case
+
+
 def stratum(case):
     b = case["bij"]
     k = b["kind"] + ("+VarArgs" if b.get("arg_vars") else "")
@@ -1023,12 +1103,116 @@ def gen_r_cases(ctx, rnd):
         for path in ("var", "dep", "auto"):
             for _ in range(per):
                 cases.append(gen_r_case(rnd, fam, "default", "default", path, nsteps, boundary=rnd.random() < 0.3, big=rnd.random() < 0.3))
+    # copies of the graph: class with Var arguments / parameters that are Vars / parameter-dependent default
+    # (HalfCauchy: Shift(loc) o Exp) are cycled through build_model(copy=True), copy_nodes_and_vars + rebuild and
+    # gs.LieselInterface.update_state; the argument is changed in the copy only
+    k = 0
+    for c in cases:
+        dep_default = c["bij"]["kind"] == "default" and c["fam"] == "HalfCauchy"
+        if c["bij"].get("arg_vars") or dep_default or (c["param_vars"] and rnd.random() < 0.35):
+            set_mode(rnd, c, MODES[k % len(MODES)])
+            k += 1
     return cases
 
 
-S_KINDS = ["inst", "inst_args", "cls", "cls_args", "default", "other"]
+S_KINDS = ["inst", "inst_args", "cls", "cls_args", "default", "other", "cls_bad"]
 S_KIND_COQ = {"inst": "(KInst false)", "inst_args": "(KInst true)", "cls": "(KCls false)", "cls_args": "(KCls true)",
-              "default": "KDefault", "other": "KOther"}
+              "default": "KDefault", "other": "KOther", "cls_bad": "KClsBad"}
+
+
+def call_of(kind, f):
+    """(bijector argument, positional args, keyword args) of a transform call of the given shape"""
+    tfb = jx()["tfb"]
+    return {"inst": (tfb.Softplus(), (), {}), "inst_args": (tfb.Softplus(), (f(1),), {}), "cls": (tfb.Softplus, (), {}),
+            "cls_args": (tfb.Softplus, (f(1),), {}), "default": (None, (), {}), "other": ("softplus", (), {}),
+            "cls_bad": (tfb.Softplus, (), {"hinge_softnes": f(1)})}[kind]
+
+
+def gen_h_cases(ctx, rnd):
+    """a refused transform (every refusal reason of the model), possibly several, then a correct one"""
+    cases = []
+    for vp in (True, False):
+        refusals = ["inst_args", "cls", "other", "cls_bad"] if vp else ["inst_args", "other", "cls_bad"]
+        accepted = ["inst", "cls_args", "default"] + ([] if vp else ["cls"])
+        seqs = [[r] for r in refusals] + [["default"]]          # "default" is refused when the distribution has none
+        for _ in range(3 if ctx.quick else 25):
+            seqs.append([rnd.choice(refusals) for _ in range(rnd.randint(2, 3))])
+        for seq in seqs:
+            for ok in (accepted if len(seq) == 1 else [rnd.choice(accepted)]):
+                nodef = "default" in seq
+                if nodef and ok == "default":
+                    ok = "inst"
+                cases.append({"type": "H", "var_path": vp, "calls": seq + [ok],
+                              "var": {"name": rnd.choice(["x", "tau2"]), "parameter": rnd.random() < 0.8, "observed": False,
+                                      "has_dist": True, "weak": False, "auto": rnd.random() < 0.4, "default": not nodef}})
+    return cases
+
+
+def run_h_case(case):
+    J = jx()
+    jnp, lsl = J["jnp"], J["lsl"]
+    f = lambda v: jnp.asarray(float(F(v)), dtype=jnp.float32)
+    x = make_var(case["var"], f)
+    gb = lsl.GraphBuilder()
+    obs = {"after": [], "errs": []}
+    tv = None
+    with warnings.catch_warnings():
+        warnings.simplefilter("ignore")
+        for kind in case["calls"]:
+            bij, args, kw = call_of(kind, f)
+            try:
+                tv = x.transform(bij, *args, **kw) if case["var_path"] else gb.transform(x, bij, *args, **kw)
+                obs["errs"].append(None)
+            except Exception as ex:
+                obs["errs"].append(type(ex).__name__)
+            obs["after"].append(flags_of(x))
+            if tv is not None:
+                break
+        if tv is not None:
+            try:
+                obs["new"] = flags_of(tv)
+                model = lsl.Model([x]) if case["var_path"] else gb.build_model()
+                lp_new = float(model.vars[tv.name].log_prob)
+                obs["log_prior"], obs["lp_new"], obs["log_prob"] = float(model.log_prior), lp_new, float(model.log_prob)
+                obs["in_prior"] = abs(obs["log_prior"] - lp_new) <= 1e-5 * max(1.0, abs(lp_new))
+            except Exception as ex:
+                obs["raised"] = f"{type(ex).__name__}: {str(ex)[:160]}"
+    return obs
+
+
+def oracle_h(case):
+    o, v = case["obs"], case["var"]
+    if "raised" in o:
+        return f"building the model after the history {case['calls']} failed: {o['raised']}"
+    n = len(case["calls"])
+    if o["errs"][: n - 1] != [e for e in o["errs"][: n - 1] if e] or len(o["errs"]) < n:
+        return None if "new" not in o else f"a call expected to be refused was accepted: {list(zip(case['calls'], o['errs']))}"
+    keep = ("name", "parameter", "observed", "has_dist", "weak")
+    for kind, fl in zip(case["calls"][:-1], o["after"]):
+        if any(fl[k] != v[k] for k in keep):
+            return (f"the refused call transform({kind}) modified the variable: "
+                    f"{ {k: fl[k] for k in keep} } instead of { {k: v[k] for k in keep} }")
+    if "new" not in o:
+        return f"the final call transform({case['calls'][-1]}) was refused: {o['errs'][-1]}"
+    x, t = o["after"][-1], o["new"]
+    if t["parameter"] != v["parameter"] or x["parameter"]:
+        return (f"after the refused call(s) {case['calls'][:-1]} and a correct transform({case['calls'][-1]}) the parameter flag "
+                f"did not move: original {x['parameter']}, new variable {t['parameter']}, was {v['parameter']}")
+    want = o["lp_new"] if v["parameter"] else 0.0
+    if abs(o["log_prior"] - want) > 1e-5 * max(1.0, abs(want)):
+        return (f"after the history {case['calls']} Model.log_prior = {o['log_prior']} but the new variable's log-density "
+                f"{o['lp_new']} {'must' if v['parameter'] else 'must not'} be part of it")
+    if x["has_dist"] or not x["weak"] or not t["has_dist"] or t["weak"]:
+        return f"flags after the history {case['calls']} wrong: {x} / {t}"
+    return None
+
+
+def h_row(c) -> str:
+    o = c["obs"]
+    calls = lst(f"({blit(c['var_path'])}, {S_KIND_COQ[k]})" for k in c["calls"][: len(o["after"])])
+    new = f"(Some {var_lit(o['new'])})" if "new" in o else "None"
+    return (f"(mkH {calls} {var_lit(c['var'])} {lst(var_lit(w) for w in o['after'])} {new} "
+            f"{blit(o.get('in_prior', False))})")
 
 
 def gen_s_cases(ctx, rnd):
@@ -1067,15 +1251,14 @@ def run_s_case(case):
     jnp, lsl, tfb = J["jnp"], J["lsl"], J["tfb"]
     f = lambda v: jnp.asarray(float(F(v)), dtype=jnp.float32)
     x = make_var(case["var"], f)
-    bij, args = {"inst": (tfb.Softplus(), ()), "inst_args": (tfb.Softplus(), (f(1),)), "cls": (tfb.Softplus, ()),
-                 "cls_args": (tfb.Softplus, (f(1),)), "default": (None, ()), "other": ("softplus", ())}[case["kind"]]
+    bij, args, kw = call_of(case["kind"], f)
     try:
         with warnings.catch_warnings():
             warnings.simplefilter("ignore")
             if case["var_path"]:
-                tv = x.transform(bij, *args)
+                tv = x.transform(bij, *args, **kw)
             else:
-                tv = lsl.GraphBuilder().transform(x, bij, *args)
+                tv = lsl.GraphBuilder().transform(x, bij, *args, **kw)
         return {"x": flags_of(x), "tv": flags_of(tv)}
     except Exception as ex:
         nm = type(ex).__name__
@@ -1126,13 +1309,16 @@ def run_a_case(case):
 def generate(ctx):
     rnd = random.Random(ctx.seed)
     jx()
-    cases = gen_r_cases(ctx, rnd) + gen_c_cases(ctx, rnd) + gen_s_cases(ctx, rnd) + gen_a_cases(ctx, rnd) + gen_k_cases(ctx, rnd)
+    cases = gen_r_cases(ctx, rnd) + gen_c_cases(ctx, rnd) + gen_s_cases(ctx, rnd) + gen_a_cases(ctx, rnd) + gen_k_cases(ctx, rnd) + gen_h_cases(ctx, rnd)
     distinct = set()
     n_eval = 0
     for c in cases:
         if c["type"] == "R":
             c["obs"] = run_r_case(c)
             ctx.hist(stratum(c))
+            ctx.hist(f"R graph mode={c.get('mode', 'inplace')}")
+            if c.get("mode", "inplace") != "inplace" and (c["bij"].get("arg_vars") or (c["bij"]["kind"] == "default" and c["fam"] == "HalfCauchy")):
+                ctx.hist(f"R model-dependent bijector argument changed in a copy ({c['mode']})")
             ctx.hist(f"R family={c['fam']}")
             ctx.hist(f"R bijector={c['bij']['name']}")
             if c["child"]:
@@ -1159,6 +1345,13 @@ def generate(ctx):
                 ctx.hist("C first link by instance, value node of the new variable replaced by a later link")
             n_eval += 1 + len(c["steps"])
             distinct.add(("C", c["fam"], str(c["links"]), str(c["params"]), str(c["v0"]), str(c["steps"])))
+        elif c["type"] == "H":
+            c["obs"] = run_h_case(c)
+            ctx.hist(f"H {'Var.transform' if c['var_path'] else 'GraphBuilder.transform'}: {len(c['calls']) - 1} refused call(s), then a correct one")
+            for kd in set(c["calls"][:-1]):
+                ctx.hist(f"H refusal reason {kd}")
+            n_eval += len(c["calls"])
+            distinct.add(("H", c["var_path"], str(c["calls"]), str(sorted(c["var"].items()))))
         elif c["type"] == "K":
             c["obs"] = run_k_case(c)
             ctx.hist(f"K chained flags {'ok' if c['obs'] is not None else 'raises'}")
@@ -1186,6 +1379,8 @@ def generate(ctx):
         "model's formulas numerically on every run, not derived from tfp's source",
         "ln Gamma at non-(half-)integer concentrations is taken from math.lgamma",
         "exception classes of refused transformations (only compared as RuntimeError / ValueError / TypeError / other)",
+        "deep copies of the graph (build_model(copy=True), copy_nodes_and_vars, gs.LieselInterface): that the copy evaluates "
+        "the transformed variable at ITS OWN current arguments, and that the model copied from stays untouched",
     ]
     ctx.assume += [
         "lawful b T X: b maps T one-to-one onto X, fldj = ln|fwd'| (Coquelicot is_derive), ildj x = -fldj (inv x); "
@@ -1284,6 +1479,12 @@ def emit(ctx, cases):
         txt = HEADER_D + f"\nDefinition cases : list scase := {lst(s_row(cases[i]) for i in idxs)}.\n" \
             "Lemma shard_ok : forallb agrees_s cases = true.\nProof. vm_compute. reflexivity. Qed.\n"
         shards.append((ctx.new_shard(txt), idxs))
+    hidx = [i for i, c in enumerate(cases) if c["type"] == "H"]
+    for k in range(0, len(hidx), 400):
+        idxs = hidx[k:k + 400]
+        txt = HEADER_D + f"\nDefinition cases : list hcase := {lst(h_row(cases[i]) for i in idxs)}.\n" \
+            "Lemma shard_ok : forallb agrees_h cases = true.\nProof. vm_compute. reflexivity. Qed.\n"
+        shards.append((ctx.new_shard(txt), idxs))
     kidx = [i for i, c in enumerate(cases) if c["type"] == "K"]
     for k in range(0, len(kidx), 400):
         idxs = kidx[k:k + 400]
@@ -1302,7 +1503,7 @@ def emit(ctx, cases):
 def diagnose(ctx, path, idxs, cases):
     txt = open(path).read()
     if "Lemma shard_ok" in txt:
-        fn = "agrees_s" if "agrees_s" in txt else ("agrees_c" if "agrees_c" in txt else "agrees_a")
+        fn = next(n for n in ("agrees_s", "agrees_c", "agrees_h", "agrees_a") if n in txt)
         txt = txt.split("Lemma shard_ok")[0] + f"Eval vm_compute in (failing {fn} cases).\n"
         ok, out = ctx.coq_eval(txt)
         return [idxs[j] for j in common.parse_nat_list(out) if j < len(idxs)]
@@ -1381,6 +1582,8 @@ def replay(rp) -> int:
     elif c["type"] == "K":
         c["kinds"] = [tuple(k) for k in c["kinds"]]
         c["obs"] = run_k_case(c)
+    elif c["type"] == "H":
+        c["obs"] = run_h_case(c)
     elif c["type"] == "S":
         c["obs"] = run_s_case(c)
     else:
